@@ -27,7 +27,7 @@ PROPS = {
                "[-2pi,2pi] with NaN entries) x four entry points (+ hook-level inverse_intern/inverse_intern_5_dof) x "
                "bare / tool-base-frame stacks to depth 3 (axial stacks for the 5-DOF entry points) x dof 5/6. "
                "non-trivial = the implementation returned at least one solution"),
-    "C06": cfg(1500, 150000, ["C06.", "C01.fk", "C01.finite"],
+    "C06": cfg(1500, 150000, ["C06.", "C01.fk", "C01.finite", "C11.exact_filter"],
                "robot zoo with dof in {5,6} (5-DOF robots have sign6 = 0) x pose families x J6 in {0,+-1,+-10,1e-300,2.5} / previous "
                "vectors with J6 in {0,+-2.5,6,0.3} x four entry points x bare / axial tool-base-frame stacks x with and without "
                "limits; hook-level inverse_intern_5_dof. non-trivial = at least one solution returned"),
